@@ -252,6 +252,17 @@ class Rec:
         except MemoryError as e:
             self.watchdog_hits += 1
             self.fail('watchdog:memory:' + kind, 'MemoryError under the %s GB address-space limit' % os.environ.get('VERIF_MEM_GB', '3'))
+        except (HarnessError, AssertionError):
+            raise
+        except Exception as e:
+            # an exception the check did not expect: when it was RAISED inside the library (innermost frame in emmet/) on a case of the
+            # property's domain it is a finding of the library, bucketed like every other one; anything raised in the harness itself stays
+            # a harness error (exit 2)
+            tb = traceback.extract_tb(e.__traceback__)
+            if tb and '/emmet/' in tb[-1].filename.replace('\\', '/'):
+                self.fail(exc_bucket(e, 'unhandled'), '%s: %s' % (type(e).__name__, short(str(e), 200)))
+            else:
+                raise
         return self.end()
 
     # ---- merging
